@@ -93,6 +93,7 @@ for nm, e in [
  ('closure_direct', '{ let f = || 5usize; f() + f() }'), ('closure_capture', '{ let k = n; let f = |x: usize| x + k; f(1) + f(2) }'), ('closure_nocap_arg', '{ let f = |x: &str| x.len(); f(s) }'),
  ('fn_item_map', 's.split(\',\').map(str::trim).collect::<Vec<&str>>()'), ('fn_item_filter', 's.chars().filter(char::is_ascii_digit).count()'),
  ('ok_or_else_closure', '{ let e = || "bad".to_string(); s.split_once(\',\').ok_or_else(e).map(|x| x.0.len()) }'),
+ ('opt_as_mut', '{ let mut o = Some(s.to_string()); if let Some(x) = o.as_mut() { x.push(\'!\'); }; o }'), ('opt_as_mut_none', '{ let mut o: Option<String> = None; if let Some(x) = o.as_mut() { x.push(\'!\'); }; o }'),
  ('closure_mut', '{ let mut k = 0usize; let mut f = |x: usize| { k += x; }; f(1); f(n); k }'),
 ]: add('sn', nm, e)
 
